@@ -17,3 +17,15 @@ Proof.
   exists t_ex, [SOne 2; SOne 1; SStep None None (-1)]. vm_compute. repeat split; reflexivity.
 Qed.
 Print Assumptions C05_hloc_open_neg_step_refuted.
+
+(* level_drop(-1) on a:(1:(7,8)) b:(1:(9), 3:(7,8)) leaves the subtree of b at offset 2 although a now holds one row:
+   the tree is no longer well formed and the leaf lookup of (2, 3) answers 3 where the tuple sits at position 2. *)
+Theorem C05_level_drop_inner_offsets_refuted :
+  exists (t : level Z),
+    wf Z Z.eqb 2 t = true /\
+    flatten (M_drop_inner Z t) = [[1; 1]; [2; 1]; [2; 3]] /\
+    offsets_ok (M_drop_inner Z t) = false /\
+    M_leaf_loc Z Z.eqb [2; 3] (M_drop_inner Z t) 0 = Ok 3 /\
+    S_lookup Z Z.eqb (flatten (M_drop_inner Z t)) [2; 3] = Ok 2.
+Proof. exists t_ex. vm_compute. repeat split; reflexivity. Qed.
+Print Assumptions C05_level_drop_inner_offsets_refuted.
